@@ -90,8 +90,79 @@ def r1_open_modes(ctx):
         ok = mv is not None and mode_ok(mv) and 'r' in mv and 'b' not in mv and '+' not in mv
         yield Ob('x12file:X12Reader.__init__ path source opened for text reading', ok, ctx.floc(fn, c),
                  '' if ok else 'mode %r: the reader compares the header with str and must not write' % (mv,))
+        # every character of the file reaches the tokenizer or the open fails loudly: no decoding policy that drops or
+        # replaces bytes (errors='ignore' / 'replace' ...) - a path source would then differ from a stream of the same text
+        pol = [k for k in c.keywords if k.arg == 'errors']
+        okp = not pol or A.const(pol[0].value) in ('strict', None)
+        yield Ob('x12file:X12Reader.__init__ path source is decoded strictly', okp, ctx.floc(fn, c),
+                 '' if okp else 'errors=%s: bytes that are not in the encoding are silently dropped or replaced, the segments read by path are not the '
+                 'characters of the file' % norm(pol[0].value))
     if not found:
         raise AnalysisError('X12Reader.__init__ no longer opens the path source')
+
+
+def r1b_source_kind(ctx):
+    """path or stream: X12Reader.__init__ decided by constant propagation for a path string, for '-' and for an open
+    stream that is NOT an io class (a codecs reader, a wrapper with read/close/closed): the stream is used as it is - never
+    handed to open() -, a path is opened, '-' is standard input.  A nominal type test (isinstance of io.IOBase) instead of
+    the duck-typed probe refuses every stream that is not derived from the io classes."""
+    import io as _io
+    from ..absint import explore
+    fn = ctx.func('x12file', 'X12Reader.__init__')
+    g = ctx.cfg(fn)
+
+    class _Stream(object):
+        _sa_model = True
+        _sa_closed = True
+        closed = False
+        mode = 'r'
+        encoding = 'ascii'
+        name = 'wrapped'
+
+        def read(self, n=-1):
+            return ''
+
+        def readable(self):
+            return True
+
+        def close(self):
+            pass
+    bad = []
+    for label, src, want in (('a path', 'claims.x12', 'opened'), ("'-'", '-', 'stdin'), ('an open stream that is not an io class', _Stream(), 'as is')):
+        seen = {'open': [], 'fd': []}
+
+        def on_node(nd, env, seen=seen):
+            if nd.ast is None:
+                return
+            for c in g.walk_exprs(nd):
+                if isinstance(c, ast.Call) and isinstance(c.func, ast.Name) and c.func.id == 'open' and c.args:
+                    try:
+                        seen['open'].append(A.ev(c.args[0], env))
+                    except A.NotClosed:
+                        seen['open'].append('?')
+            a_ = nd.ast
+            if nd.kind == 'stmt' and isinstance(a_, ast.Assign) and any(path_of(t) == 'self.fd_in' for t in a_.targets):
+                try:
+                    seen['fd'].append(A.ev(a_.value, env, {'open': lambda *x, **k: 'OPENED'}))
+                except A.NotClosed:
+                    seen['fd'].append(norm(a_.value))
+        env = {'src_file_obj': src, 'io.IOBase': _io.IOBase, 'io.TextIOBase': _io.TextIOBase, 'io.StringIO': _io.StringIO, 'io.TextIOWrapper': _io.TextIOWrapper}
+        try:
+            explore(g, env, funcs={'isinstance': isinstance, 'hasattr': hasattr, 'callable': callable,
+                                   'getattr': lambda o, n_, *d: getattr(o, n_, *d)},
+                    on_node=on_node, unknown='stop', concrete_exceptions=True)
+        except RuntimeError as e:
+            raise AnalysisError('X12Reader.__init__: %s' % e)
+        fds = [f for f in seen['fd'] if f is not None]
+        if want == 'opened':
+            ok = seen['open'] == [src]
+        elif want == 'stdin':
+            ok = not seen['open'] and fds[-1:] == ['sys.stdin']
+        else:
+            ok = not seen['open'] and fds[-1:] == [src]
+        if not ok:
+            bad.append('%s: open() called on %s, self.fd_in bound to %s' % (label, seen['open'] or 'nothing', [str(f) if not isinstance(f, _Stream) else 'the stream' for f in fds] or 'nothing'))
+    yield Ob('x12file:X12Reader.__init__ uses a stream as it is, opens a path, reads standard input for "-"', not bad, ctx.floc(fn), '' if not bad else bad[0])
 
 
 # --------------------------------------------------------------------------- R2
@@ -669,19 +740,23 @@ def r8_format_keeps_values(ctx):
 
 
 def r7_format_delimiters(ctx):
-    """formatting puts each delimiter where parsing looks for it: the text returned by Segment.format is
-    id + element separator + elements joined by the element separator + terminator, every element formatted with the
-    component separator; Composite.format joins the components with the component separator.  The returned
-    expressions are evaluated with three distinct delimiter characters."""
+    """formatting puts each delimiter where parsing looks for it, decided by constant propagation through the two
+    formatters with three distinct delimiter characters: Segment.format gives id + element separator + elements joined
+    by the element separator + terminator, every element formatted with the component separator; Composite.format joins
+    the components with the component separator; a delimiter that is not passed is the object's own of the same name."""
+    from ..absint import run_function, helper_oracles, NotClosedTest
+    hf = helper_oracles(ctx, 'segment')
     fn = ctx.func('segment', 'Segment.format')
-    rets = [n for n in ast.walk(fn) if isinstance(n, ast.Return) and n.value is not None]
-    if len(rets) != 1:
-        raise AnalysisError('Segment.format: single return not found')
+    fc = ctx.func('segment', 'Composite.format')
+
     class _Comp(object):
         _sa_model = True
 
         def format(self, st=None):
             return 'v%sw' % st
+
+        def is_empty(self):
+            return False
 
     class _Ele(object):
         _sa_model = True
@@ -695,40 +770,37 @@ def r7_format_delimiters(ctx):
         def get_value(self):
             return self.value
 
+        def is_empty(self):
+            return self.value == ''
+
         def __repr__(self):
             return self.value
-    env = {'self.seg_id': 'ID', 'ele_term': '*', 'seg_term': '~', 'subele_term': ':', 'str_elems': ('a:b', 'c'), 'self.elements': (_Comp(), _Comp()), 'i': 1}
-    funcs = {}
-    try:
-        got = A.ev(rets[0].value, env, funcs)
-    except (A.NotClosed, TypeError) as e:
-        raise AnalysisError('Segment.format: returned expression not closed: %s' % e)
-    ok = got in ('ID*a:b*c~', 'ID*v:w*v:w~')
-    yield Ob('segment:Segment.format = id, element separator, elements joined by it, terminator', ok, ctx.floc(fn, rets[0]),
-             '' if ok else 'with * : ~ the expression `%s` gives %r' % (norm(rets[0].value, 70), got))
-    calls = [c for c in A.calls_in(fn) if A.call_target(c)[1] == 'format' and not A.is_str(c.func.value) and path_of(c.func.value) not in (None, 'self')]
-    ok = bool(calls) and all([path_of(a) for a in c.args] == ['subele_term'] for c in calls)
-    yield Ob('segment:Segment.format formats every element with the component separator', ok, ctx.floc(fn),
-             '' if ok else 'element format calls: %s' % [norm(c) for c in calls])
-    fc = ctx.func('segment', 'Composite.format')
-    rets = [n for n in ast.walk(fc) if isinstance(n, ast.Return) and n.value is not None]
-    if len(rets) != 1:
-        raise AnalysisError('Composite.format: single return not found')
-    try:
-        got = A.ev(rets[0].value, {'subele_term': ':', 'self.elements': (_Ele('a'), _Ele('b'), _Ele('')), 'i': 1, 'ele_term': '*', 'seg_term': '~'},
-                   {'Element.__repr__': lambda x: x.value, 'str': str, 'repr': repr})
-    except (A.NotClosed, TypeError) as e:
-        raise AnalysisError('Composite.format: returned expression not closed: %s' % e)
-    ok = got == 'a:b'
-    yield Ob('segment:Composite.format joins the components with the component separator', ok, ctx.floc(fc, rets[0]),
-             '' if ok else 'with : the expression `%s` gives %r' % (norm(rets[0].value, 70), got))
-    # defaults: an omitted delimiter argument falls back to the segment's own delimiter of the same name
-    for f_, names in ((fn, ('seg_term', 'ele_term', 'subele_term')), (fc, ('subele_term',))):
-        for nm in names:
-            dflt = [n for n in ast.walk(f_) if isinstance(n, ast.Assign) and path_of(n.targets[0]) == nm]
-            ok = bool(dflt) and all(path_of(d.value) == 'self.' + nm for d in dflt)
-            yield Ob('segment:%s default for %s is the object\'s own %s' % (f_._qual if hasattr(f_, '_qual') else f_.name, nm, nm), ok, ctx.floc(f_),
-                     '' if ok else 'defaults: %s' % [norm(d) for d in dflt])
+
+    def run(f, args, env):
+        try:
+            return run_function(ctx.cfg(f), f, [None] + args, dict(hf, **{'Element.__repr__': lambda x: x.value}), env=env)
+        except (NotClosedTest, A.NotClosed) as e:
+            raise AnalysisError('%s cannot be decided: %s' % (f.name, e))
+    own = {'self.seg_id': 'ID', 'self.elements': (_Comp(), _Comp()), 'self.seg_term': '!', 'self.ele_term': '|', 'self.subele_term': '>'}
+    got = run(fn, ['~', '*', ':'], own)
+    ok = got == 'ID*v:w*v:w~'
+    yield Ob('segment:Segment.format = id, element separator, elements joined by it, terminator', ok, ctx.floc(fn),
+             '' if ok else 'with the delimiters ~ * : a segment of two elements is formatted as %r, expected %r' % (got, 'ID*v:w*v:w~'))
+    yield Ob('segment:Segment.format formats every element with the component separator', ok or (isinstance(got, str) and got.count('v:w') == 2), ctx.floc(fn),
+             '' if ok else 'elements are rendered as %r' % (got,))
+    cown = {'self.elements': (_Ele('a'), _Ele('b'), _Ele('')), 'self.subele_term': '>'}
+    gotc = run(fc, [':'], cown)
+    okc = gotc == 'a:b'
+    yield Ob('segment:Composite.format joins the components with the component separator', okc, ctx.floc(fc),
+             '' if okc else 'with : the components a, b, (empty) are formatted as %r' % (gotc,))
+    # defaults: an omitted delimiter argument falls back to the object's own delimiter of the same name
+    for nm, args, want in (('seg_term', [None, '*', ':'], 'ID*v:w*v:w!'), ('ele_term', ['~', None, ':'], 'ID|v:w|v:w~'), ('subele_term', ['~', '*', None], 'ID*v>w*v>w~')):
+        g_ = run(fn, args, own)
+        yield Ob("segment:Segment.format default for %s is the object's own %s" % (nm, nm), g_ == want, ctx.floc(fn),
+                 '' if g_ == want else 'without %s the segment is formatted as %r, expected %r' % (nm, g_, want))
+    g_ = run(fc, [None], cown)
+    yield Ob("segment:Composite.format default for subele_term is the object's own subele_term", g_ == 'a>b', ctx.floc(fc),
+             '' if g_ == 'a>b' else 'without subele_term the composite is formatted as %r, expected %r' % (g_, 'a>b'))
 
 
 def r9_shared_int_total(ctx):
@@ -740,6 +812,7 @@ def r9_shared_int_total(ctx):
 
 RULES = [
     Rule('C01.R1', 'literal open() modes valid on every supported interpreter; reader opens the path for text reading', r1_open_modes, floor=15),
+    Rule('C01.R1b', 'source kind decided by constant propagation: stream used as it is (duck typed), path opened, "-" = stdin', r1b_source_kind, floor=1),
     Rule('C01.R2', 'ISA header offsets = offsets derived from dataele widths; version whitelist = control maps', r2_isa_offsets, floor=9),
     Rule('C01.R3', 'every tokenizer-loop exit is an end-of-stream exit; header read retries', r3_tokenizer_exits, floor=5),
     Rule('C01.R4', 'Segment delimiters come from the header; get_term tuple positions agree', r4_delimiter_provenance, floor=9),
